@@ -22,11 +22,12 @@ const (
 	wValue = iota
 	wChange
 	wEmpty
-	wValid   // validator v >= 2
-	wValidEr // validator: error at v == 1, true at v >= 2
+	wValid    // validator v >= 2
+	wValidEr  // validator: error at v == 1, true at v >= 2
+	wValidNil // nil validator: any non-empty value
 )
 
-var wLabels = []string{"WaitValue", "WaitValueChange", "WaitValueEmpty", "WaitValueWithValidator", "WaitValueWithValidator(err)"}
+var wLabels = []string{"WaitValue", "WaitValueChange", "WaitValueEmpty", "WaitValueWithValidator", "WaitValueWithValidator(err)", "WaitValueWithValidator(nil)"}
 
 var errValid = fmt.Errorf("validator-error")
 var errCh15 = fmt.Errorf("errch-error")
@@ -37,7 +38,7 @@ func same(eq eqFn, a, b int) bool { return a == b || (eq != nil && eq(a, b)) }
 
 func cond(kind int, eq eqFn, old, v int) bool {
 	switch kind {
-	case wValue:
+	case wValue, wValidNil:
 		return !same(eq, 0, v)
 	case wChange:
 		return !same(eq, old, v)
@@ -72,6 +73,8 @@ func ccWait(c *ccontainer.CContainer[int], id, kind, old int, eq eqFn, ctx conte
 		err = c.WaitValueEmpty(ctx, errCh)
 	case wValid:
 		v, err = c.WaitValueWithValidator(ctx, func(x int) (bool, error) { return x >= 2, nil }, errCh)
+	case wValidNil:
+		v, err = c.WaitValueWithValidator(ctx, nil, errCh)
 	case wValidEr:
 		v, err = c.WaitValueWithValidator(ctx, func(x int) (bool, error) {
 			if x == 1 {
@@ -284,6 +287,24 @@ func init() {
 			T("A", func() { swapTo(c, func(int) int { return 1 }); swapTo(c, func(int) int { return 0 }) })
 			T("B", func() { vsched.Observe(oOp, 2, 0, 0); c.SetValue(2) })
 			finalWaiters(c, nil, map[int]int{})
+		},
+		Post: heldPost,
+	})
+	eng.Register(&eng.Scenario{
+		Name: "cc-nilvalidator", Props: []string{"C15"}, ObsNames: stdObs,
+		Doc:   "CContainer (plain or custom equality, choice): a WaitValueWithValidator(nil validator) waiter and a WaitValueEmpty waiter against writers Swap(->1), Swap(->0) and SetValue(2)",
+		Quick: eng.Bounds{PB: 2}, Thorough: eng.Bounds{PB: 3},
+		Body: func() {
+			var eq eqFn
+			c := ccontainer.NewCContainer[int](0)
+			if vsched.Choose(2) == 1 {
+				eq = mod2
+				c = ccontainer.NewCContainerWithEqual[int](0, mod2)
+			}
+			T("W1", func() { ccWait(c, 1, wValidNil, 0, eq, bg, nil) })
+			T("A", func() { swapTo(c, func(int) int { return 1 }); swapTo(c, func(int) int { return 0 }) })
+			T("B", func() { vsched.Observe(oOp, 2, 0, 0); c.SetValue(2) })
+			finalWaiters(c, eq, map[int]int{})
 		},
 		Post: heldPost,
 	})
